@@ -1,5 +1,6 @@
 import Props.C01F
 import Proofs.FloatEZero
+import Proofs.FloatESub
 /-!
 C01 for layouts with floats in either notation: the render / parse law of E-notation float
 fields (`law_flt_E`), the read-back and stability of whole lines (`main_FE`) and the whole of
@@ -41,8 +42,10 @@ theorem round_of_fits_E (f : Field) (dec : Nat) (fmt c : Char) (hk : f.kind = .f
         Proofs.FloatLaw.replace_single, Proofs.FloatLaw.subst1_length] at hren <;>
       simpa using hren
 
-/-- **Floats in E notation, full law.** For every normal double, from `2^-1022` to the largest
-finite one (`2^52 ≤ m < 2^53`, `-1074 ≤ e ≤ 971`) and every E-notation float field (any width, up to
+/-- **Floats in E notation, full law.** For every finite non-zero double of magnitude
+`10^(decimals-323)` or more (`Proofs.FloatE.wfB`: every normal double up to the largest finite
+one, and the subnormal ones whose last emitted digit has place value `10^-323` or more — the
+deeper ones are `law_flt_E_fine`) and every E-notation float field (any width, up to
 twelve declared decimals, any admitted separator) in which the value fits: the text written
 is `size` wide, reads back as the double nearest to the decimal emitted — which is
 `round(x, decimals − ⌊log10 |x|⌋)` — and writing that double gives the same text
@@ -50,7 +53,7 @@ is `size` wide, reads back as the double nearest to the decimal emitted — whic
 it was rounded to, even when rounding moved it across a power of ten). -/
 theorem law_flt_E (f : Field) (dec : Nat) (fmt c : Char) (hk : f.kind = .flt dec fmt [c])
     (hfmt : fmt = 'E' ∨ fmt = 'e') (hsep : sepOk [c] = true)
-    (neg : Bool) (m : Nat) (e : Int) (hwf : wfE m e dec) (hdec : dec ≤ 12)
+    (neg : Bool) (m : Nat) (e : Int) (hwf : wfB m e dec) (hdec : dec ≤ 12)
     (hfits : Spec.C02.fits f (.dbl (.fin neg m e)) = true) :
     RenderLaw f (.dbl (.fin neg m e)) := by
   obtain ⟨hc1, hc2, hc3⟩ := sep_facts hsep
@@ -72,6 +75,47 @@ theorem law_flt_E (f : Field) (dec : Nat) (fmt c : Char) (hk : f.kind = .flt dec
   refine ⟨t, ⟨h1, h2, hgeo⟩, ?_, ?_⟩
   · rw [h3, hcan]; rfl
   · rw [hcan]; exact h4
+
+/-- **Floats in E notation, deep subnormal values, full law.** For every non-zero subnormal
+double `m·2^-1074` below `10^(decimals-323)` (`Proofs.FloatE.wfFine`: the last digit emitted has
+place value `10^-324` or less) and every E-notation float field (any width, up to twelve declared
+decimals, any admitted separator) in which the value fits: the text written is `size` wide and
+reads back as the value itself — `round` with more than 323 digits returns its argument, and the
+decimal grid is finer than half a subnormal step (`Proofs.FloatE.sub_fine`) — so writing what
+was read gives the same text. -/
+theorem law_flt_E_fine (f : Field) (dec : Nat) (fmt c : Char) (hk : f.kind = .flt dec fmt [c])
+    (hfmt : fmt = 'E' ∨ fmt = 'e') (hsep : sepOk [c] = true)
+    (neg : Bool) (m : Nat) (hwf : wfFine m dec) (hdec : dec ≤ 12)
+    (hfits : Spec.C02.fits f (.dbl (.fin neg m (-1074))) = true) :
+    RenderLaw f (.dbl (.fin neg m (-1074))) := by
+  obtain ⟨hc1, hc2, hc3⟩ := sep_facts hsep
+  obtain ⟨hc4, hc5, hc6⟩ := sep_factsE hsep
+  have hfits0 := hfits
+  simp only [Spec.C02.fits, Bool.and_eq_true, beq_iff_eq] at hfits
+  obtain ⟨⟨hgeo, _⟩, hren⟩ := hfits
+  have hm0 : m ≠ 0 := hwf.1
+  obtain ⟨hm, hfine⟩ := fine_facts m dec hwf hdec
+  obtain ⟨r, hr, hfit⟩ := round_of_fits_E f dec fmt c hk hfmt neg m (-1074) hm0 hfits0
+  have hround : Dbl.pyRound (.fin neg m (-1074)) ((dec : Int) - Dbl.floorLog10 m (-1074)) = some (.fin neg m (-1074)) := by
+    unfold Dbl.pyRound
+    have : (dec : Int) - Dbl.floorLog10 m (-1074) > 323 := by omega
+    simp only [this, if_true]
+  have hrx : r = .fin neg m (-1074) := by
+    rw [hround] at hr; injection hr with hr; exact hr.symm
+  subst hrx
+  obtain ⟨_, t, h1, h2, h3, _, _⟩ :=
+    fltE_core_fine f dec fmt c hk hfmt hc1 hc2 hc3 hc4 hc5 hc6 neg m hm0 hm hdec hfine hfit
+  have hpf : Dbl.pyFloat (replace t [c] ['.']) = some (.fin neg m (-1074)) := by
+    rw [hk] at h3
+    simp only [parseText] at h3
+    cases hp : Dbl.pyFloat (replace t [c] ['.']) with
+    | none => rw [hp] at h3; simp at h3
+    | some d => rw [hp] at h3; simp at h3; rw [h3]
+  have hcan : canon f (.dbl (.fin neg m (-1074))) t = .dbl (.fin neg m (-1074)) := by
+    simp only [canon, Val.isNull, Dbl.isNaN, Bool.false_eq_true, if_false, hk, hpf]
+  refine ⟨t, ⟨h1, h2, hgeo⟩, ?_, ?_⟩
+  · rw [h3, hcan]; rfl
+  · rw [hcan]; exact h1
 
 /-- **Zero in an E-notation field, full law**: the text (`0.000E+00`, with fewer decimals when
 the field is narrow) is `size` wide, reads back as zero of the same sign, and writing that
@@ -101,22 +145,74 @@ theorem law_flt_E_zero (f : Field) (dec : Nat) (fmt c : Char) (hk : f.kind = .fl
   · rw [h3, hcan]; rfl
   · rw [hcan]; exact h4
 
-/-- the admitted non-missing floats of the theorems for both notations -/
+/-- the non-missing floats of the read-back / stability theorems: in an F-notation field any
+finite double; in an E-notation field zero, a double of magnitude `10^(decimals-323)` or more
+(`wfB`), or a subnormal double `m·2^-1074` below that (`wfFine`) — that is EVERY finite double in
+normal form (`floatFB_all`) -/
+def FloatFB (f : Field) (v : Val) : Prop :=
+  ∀ dec fmt sep, f.kind = .flt dec fmt sep → v.isNull = true ∨
+    ((fmt = 'F' ∨ fmt = 'f') ∧ dec ≤ 323 ∧ ∃ neg m e, v = .dbl (.fin neg m e) ∧ Proofs.FloatLoop.wfs m e) ∨
+    ((fmt = 'E' ∨ fmt = 'e') ∧ ∃ neg m e, v = .dbl (.fin neg m e) ∧ (wfB m e dec ∨ m = 0 ∨ (e = -1074 ∧ wfFine m dec)))
+
+/-- every finite double in normal form (a significand below `2^52` only with the exponent
+`-1074`) is admitted in an E-notation field of up to twelve decimals: the three ranges `wfB`,
+zero and `wfFine` leave nothing out -/
+theorem floatFB_all (m : Nat) (e : Int) (d : Nat) (hd : d ≤ 12) (hm : m < 2 ^ 53) (he1 : -1074 ≤ e) (he2 : e ≤ 971)
+    (hnorm : m < 2 ^ 52 → e = -1074) :
+    wfB m e d ∨ m = 0 ∨ (e = -1074 ∧ wfFine m d) := by
+  by_cases hm0 : m = 0
+  · exact Or.inr (Or.inl hm0)
+  by_cases hb : 10 ^ d * 2 ^ 1074 ≤ Proofs.Nearest.units (-1074) m e * 10 ^ 323
+  · exact Or.inl ⟨hm0, hm, he1, he2, hb⟩
+  · refine Or.inr (Or.inr ?_)
+    have hlt : Proofs.Nearest.units (-1074) m e * 10 ^ 323 < 10 ^ d * 2 ^ 1074 := by omega
+    have hmu : m ≤ Proofs.Nearest.units (-1074) m e := by
+      show m ≤ m * 2 ^ (e - (-1074)).toNat
+      exact Nat.le_mul_of_pos_right _ (Proofs.Nearest.two_pow_pos _)
+    have hm52 : m < 2 ^ 52 := by
+      apply Classical.byContradiction
+      intro hge
+      have a1 : 2 ^ 52 * 10 ^ 323 ≤ Proofs.Nearest.units (-1074) m e * 10 ^ 323 :=
+        Nat.mul_le_mul_right _ (by omega)
+      have a2 : (10 : Nat) ^ d * 2 ^ 1074 ≤ 10 ^ 12 * 2 ^ 1074 :=
+        Nat.mul_le_mul_right _ (Nat.pow_le_pow_right (by decide) hd)
+      have := pow_factsF
+      omega
+    have he : e = -1074 := hnorm hm52
+    subst he
+    have hu : Proofs.Nearest.units (-1074) m (-1074) = m := by simp [Proofs.Nearest.units]
+    rw [hu] at hlt
+    exact ⟨rfl, hm0, hlt⟩
+
+/-- the admitted non-missing floats of the theorems for both notations, accuracy clauses
+included: as `FloatFB`, without the one decimal decade `10^(decimals-323) ≤ |x| < 10^(decimals-322)`
+of E-notation fields, in which the half-unit clause is false at some values (K2) -/
 def FloatFE (f : Field) (v : Val) : Prop :=
   ∀ dec fmt sep, f.kind = .flt dec fmt sep → v.isNull = true ∨
     ((fmt = 'F' ∨ fmt = 'f') ∧ dec ≤ 323 ∧ ∃ neg m e, v = .dbl (.fin neg m e) ∧ Proofs.FloatLoop.wfs m e) ∨
-    ((fmt = 'E' ∨ fmt = 'e') ∧ ∃ neg m e, v = .dbl (.fin neg m e) ∧ (wfE m e dec ∨ m = 0))
+    ((fmt = 'E' ∨ fmt = 'e') ∧ ∃ neg m e, v = .dbl (.fin neg m e) ∧ (wfE m e dec ∨ m = 0 ∨ (e = -1074 ∧ wfFine m dec)))
+
+theorem floatFB_of_FE {f : Field} {v : Val} (h : FloatFE f v) : FloatFB f v := by
+  intro dec fmt sep hk
+  rcases h dec fmt sep hk with hn | hf | ⟨hfmt, neg, m, e, hv, hw⟩
+  · exact Or.inl hn
+  · exact Or.inr (Or.inl hf)
+  · refine Or.inr (Or.inr ⟨hfmt, neg, m, e, hv, ?_⟩)
+    rcases hw with hw | hw | hw
+    · exact Or.inl (wfB_of_wfE m e dec hw)
+    · exact Or.inr (Or.inl hw)
+    · exact Or.inr (Or.inr hw)
 
 /-- **The full law from the decidable domain guard, floats in either notation included.** -/
 theorem renderLaw_of_domain_FE (f : Field) (v : Val) (h : fieldInDomain f v = true)
     (hdate : ∀ fmts, f.kind = .date fmts → v.isNull = true → ∀ fm ∈ fmts, fm ≠ [])
     (hbig : ∀ n, v = .int n → n.natAbs < 10 ^ 4300)
-    (hflt : FloatFE f v) : RenderLaw f v := by
+    (hflt : FloatFB f v) : RenderLaw f v := by
   by_cases hF : FloatF f v
   · exact renderLaw_of_domain_F f v h hdate hbig hF
   · -- a non-missing float in E notation
     have : ∃ dec fmt sep, f.kind = .flt dec fmt sep ∧ (fmt = 'E' ∨ fmt = 'e') ∧
-        ∃ neg m e, v = .dbl (.fin neg m e) ∧ (wfE m e dec ∨ m = 0) := by
+        ∃ neg m e, v = .dbl (.fin neg m e) ∧ (wfB m e dec ∨ m = 0 ∨ (e = -1074 ∧ wfFine m dec)) := by
       apply Classical.byContradiction
       intro hno
       apply hF
@@ -138,20 +234,21 @@ theorem renderLaw_of_domain_FE (f : Field) (v : Val) (h : fieldInDomain f v = tr
         | cons _ _ => simp [sepOk] at hsep
     have hdec : dec ≤ 12 := by
       rcases hfmt with rfl | rfl <;> simpa using hnot
-    rcases hwf with hwf | rfl
+    rcases hwf with hwf | rfl | ⟨rfl, hwf⟩
     · exact law_flt_E f dec fmt c hk hfmt hsep neg m e hwf hdec hfits
     · exact law_flt_E_zero f dec fmt c hk hfmt hsep neg e hdec hfits
+    · exact law_flt_E_fine f dec fmt c hk hfmt hsep neg m hwf hdec hfits
 
 /-- **C01 for layouts with floats in either notation: read-back and text stability.** For every
 layout and value list admitted by `Spec.C01.inDomain` whose non-missing floats are finite
-doubles (any of them) in F-notation fields of at most 323 decimals, or zero or normal doubles
-(`2^-1022` and more) in E-notation fields (at most twelve decimals, by the domain): the model's write /
-read / re-write cycle succeeds, the values read back are the canonical forms, and the
+doubles (any of them) in F-notation fields of at most 323 decimals, or finite doubles (ANY of
+them, in normal form: `FloatFB`, `floatFB_all`) in E-notation fields (at most twelve decimals, by
+the domain): the model's write / read / re-write cycle succeeds, the values read back are the canonical forms, and the
 re-written text is identical to the written one. -/
 theorem main_FE (fs : List Field) (vs : List Val) (h : inDomain fs vs = true)
     (hdate : ∀ fv ∈ fs.zip vs, ∀ fmts, fv.1.kind = .date fmts → fv.2.isNull = true → ∀ fm ∈ fmts, fm ≠ [])
     (hbig : ∀ v ∈ vs, ∀ n, v = .int n → n.natAbs < 10 ^ 4300)
-    (hflt : ∀ fv ∈ fs.zip vs, FloatFE fv.1 fv.2) :
+    (hflt : ∀ fv ∈ fs.zip vs, FloatFB fv.1 fv.2) :
     ∃ o, cycle fs vs = some o ∧ o.rewritten = o.written ∧
       o.readBack = (fs.zip vs).map (fun fv => canon fv.1 fv.2 (slice o.written fv.1.start fv.1.stop)) := by
   obtain ⟨w, hw, hread⟩ := readBack_of_inDomain fs vs h hdate hbig
@@ -171,7 +268,7 @@ theorem clauses_FE (f : Field) (v : Val) (r : List Char) (hd : fieldInDomain f v
   by_cases hF : FloatF f v
   · exact clauses_F f v r hd hF hrend
   · have : ∃ dec fmt sep, f.kind = .flt dec fmt sep ∧ (fmt = 'E' ∨ fmt = 'e') ∧
-        ∃ neg m e, v = .dbl (.fin neg m e) ∧ (wfE m e dec ∨ m = 0) := by
+        ∃ neg m e, v = .dbl (.fin neg m e) ∧ (wfE m e dec ∨ m = 0 ∨ (e = -1074 ∧ wfFine m dec)) := by
       apply Classical.byContradiction
       intro hno
       apply hF
@@ -195,11 +292,34 @@ theorem clauses_FE (f : Field) (v : Val) (r : List Char) (hd : fieldInDomain f v
       rcases hfmt with rfl | rfl <;> simpa using hnot
     obtain ⟨hc1, hc2, hc3⟩ := sep_facts hsep
     obtain ⟨hc4, hc5, hc6⟩ := sep_factsE hsep
-    rcases hwf with hwf | rfl
+    rcases hwf with hwf | rfl | ⟨rfl, hwf⟩
+    rotate_left 2
+    · -- deep subnormal value: `round` is the identity, one correct rounding
+      have hm0 : m ≠ 0 := hwf.1
+      obtain ⟨hm, hfine⟩ := fine_facts m dec hwf hdec
+      obtain ⟨r', hr', hfit⟩ := round_of_fits_E f dec fmt c hk hfmt neg m (-1074) hm0 hfits
+      have hround : Dbl.pyRound (.fin neg m (-1074)) ((dec : Int) - Dbl.floorLog10 m (-1074)) = some (.fin neg m (-1074)) := by
+        unfold Dbl.pyRound
+        have : (dec : Int) - Dbl.floorLog10 m (-1074) > 323 := by omega
+        simp only [this, if_true]
+      have hrx : r' = .fin neg m (-1074) := by
+        rw [hround] at hr'; injection hr' with hr'; exact hr'.symm
+      subst hrx
+      obtain ⟨_, t, h1, _, _, hsci, k, hteq⟩ :=
+        fltE_core_fine f dec fmt c hk hfmt hc1 hc2 hc3 hc4 hc5 hc6 neg m hm0 hm hdec hfine hfit
+      have hrt : r = t := by
+        have := hrend.1
+        rw [h1] at this
+        injection this with this
+        exact this.symm
+      rw [hrt, hteq]
+      exact Proofs.FloatEClauses.floatClauses_E f dec fmt c hk hfmt hsep neg m (-1074) hm0
+        (by decide) hdec m (-1074) hsci k
     · have hm0 : m ≠ 0 := hwf.1
       obtain ⟨r', hr', hfit⟩ := round_of_fits_E f dec fmt c hk hfmt neg m e hm0 hfits
-      obtain ⟨t, h1, _, _, _, m', e', k, _, hsci, hteq⟩ :=
-        fltE_core f dec fmt c hk hfmt hc1 hc2 hc3 hc4 hc5 hc6 neg m e hwf hdec r' hr' hfit
+      obtain ⟨t, h1, _, _, _, m', e', k, _, _, hsciE, hteq⟩ :=
+        fltE_core f dec fmt c hk hfmt hc1 hc2 hc3 hc4 hc5 hc6 neg m e (wfB_of_wfE m e dec hwf) hdec r' hr' hfit
+      have hsci := hsciE hwf
       have hrt : r = t := by
         have := hrend.1
         rw [h1] at this
@@ -220,8 +340,9 @@ theorem clauses_FE (f : Field) (v : Val) (r : List Char) (hd : fieldInDomain f v
 
 /-- **C01 in full, floats in either notation.** For every layout and value list admitted by
 `Spec.C01.inDomain` whose non-missing floats are finite doubles (any of them) in F-notation
-fields of at most 323 decimals, or zero or normal doubles (`2^-1022` and more) in
-E-notation fields: the model's write / read / re-write cycle satisfies the whole of
+fields of at most 323 decimals, or — in E-notation fields — zero, doubles of magnitude
+`10^(decimals-322)` or more (every normal double among them) or subnormal doubles below
+`10^(decimals-323)`: the model's write / read / re-write cycle satisfies the whole of
 `Spec.C01.holds` —
 values read back are the canonical forms, the re-written text is identical, and every float is
 written in the configured dialect and within half a unit of its last emitted digit (F
@@ -231,7 +352,7 @@ theorem main_FE_full (fs : List Field) (vs : List Val) (h : inDomain fs vs = tru
     (hbig : ∀ v ∈ vs, ∀ n, v = .int n → n.natAbs < 10 ^ 4300)
     (hflt : ∀ fv ∈ fs.zip vs, FloatFE fv.1 fv.2) :
     ∃ o, cycle fs vs = some o ∧ holds fs vs o = true := by
-  obtain ⟨o, hc, hst, hrb⟩ := main_FE fs vs h hdate hbig hflt
+  obtain ⟨o, hc, hst, hrb⟩ := main_FE fs vs h hdate hbig (fun fv hfv => floatFB_of_FE (hflt fv hfv))
   refine ⟨o, hc, holds_of_clauses fs vs h o hc hst hrb ?_⟩
   intro fv hfv r hrend
   have hdom0 := h
@@ -310,5 +431,37 @@ theorem subnormal_E_counterexample :
     by decide +kernel, rfl, rfl, rfl, by decide +kernel⟩
   intro h
   exact absurd h.2.2.2.2 (by decide +kernel)
+
+end Props.C01
+
+namespace Props.C01
+open Cfi Cfi.Text Spec.C01 Proofs.FloatE Proofs.FloatELaw
+
+/-- non-vacuity for a DEEP subnormal value: `3·2^-1074` (about 1.5e-323) in an E-notation field
+of three decimals is admitted by `wfFine` (its last emitted digit has place value `10^-326`),
+meets every premise of `main_FE_full`, and the cycle writes `1.482E-323` and reads back the
+value itself -/
+example :
+    let fs := [Field.mk' (.flt 3 'E' ['.']) 12 0]
+    let vs := [Val.dbl (.fin false 3 (-1074))]
+    inDomain fs vs = true ∧ (∀ fv ∈ fs.zip vs, FloatFE fv.1 fv.2) ∧
+    cycle fs vs = some ⟨"  1.482E-323\n".toList, [Val.dbl (.fin false 3 (-1074))],
+      "  1.482E-323\n".toList⟩ := by
+  refine ⟨by decide +kernel, ?_, by decide +kernel⟩
+  intro fv hfv
+  simp only [List.zip_cons_cons, List.zip_nil_right, List.mem_cons, List.not_mem_nil, or_false] at hfv
+  subst hfv
+  intro dec fmt sep hk
+  simp only [Field.mk', Kind.flt.injEq] at hk
+  obtain ⟨rfl, rfl, rfl⟩ := hk
+  exact Or.inr (Or.inr ⟨Or.inl rfl, false, _, _, rfl,
+    Or.inr (Or.inr ⟨rfl, by decide, by decide +kernel⟩)⟩)
+
+/-- the K2 witness lies in the one decade `wfB` adds to `wfE`: `main_FE` applies to it (the cycle
+is stable and reads back the double nearest to the text), `main_FE_full` does not -/
+theorem k2_in_band : wfB 21 (-1074) 1 ∧ ¬ wfE 21 (-1074) 1 ∧ ¬ wfFine 21 1 := by
+  refine ⟨⟨by decide, by decide, by decide, by decide, by decide +kernel⟩, ?_, ?_⟩
+  · intro h; exact absurd h.2.2.2.2 (by decide +kernel)
+  · intro h; exact absurd h.2 (by decide +kernel)
 
 end Props.C01
